@@ -1,6 +1,6 @@
 (* C03: the decoder accepts exactly the encodings the specification allows. *)
 From PV Require Import Base MachineInt VarintParams GenArith GenLoops Varint Utf8 DataModel Ser De
-  WireFormat VarintFacts VarintCore DeFacts DeSpec.
+  WireFormat VarintFacts VarintCore DeFacts DeSpec Locality.
 Open Scope N_scope.
 
 (* On every input the bit-level decoder of the implementation (varint loops with the
@@ -69,8 +69,23 @@ Example C03_example_nonminimal :
   spec_de (TInt U16) [128; 128] = Err DeserializeUnexpectedEnd.
 Proof. repeat split; vm_compute; reflexivity. Qed.
 
+(* the remaining bytes never influence the result: a successful decode consumes a prefix of
+   the input that alone determines value and consumption *)
+Theorem C03_remaining_bytes_irrelevant : forall (t : ty) (l : list byte) (v : value) (rest : list byte),
+  bytes_ok l -> de_slice t l = Ok (v, rest) ->
+  exists p, l = p ++ rest /\ forall rest', bytes_ok rest' -> de_slice t (p ++ rest') = Ok (v, rest').
+Proof. exact de_rest_never_matters. Qed.
+
+(* every strict prefix of a valid message fails with unexpected-end, for every shape *)
+Theorem C03_strict_prefix_unexpected_end : forall (t : ty) (p : list byte) (v : value),
+  bytes_ok p -> de_slice t p = Ok (v, []) ->
+  forall q q', p = q ++ q' -> q' <> [] -> de_slice t q = Err DeserializeUnexpectedEnd.
+Proof. exact de_strict_prefix_unexpected_end. Qed.
+
 Print Assumptions C03_de_is_spec.
 Print Assumptions C03_varint_exact.
 Print Assumptions C03_varint_errors.
 Print Assumptions C03_accepts_encodings.
 Print Assumptions C03_primitive_errors.
+Print Assumptions C03_remaining_bytes_irrelevant.
+Print Assumptions C03_strict_prefix_unexpected_end.
